@@ -84,6 +84,11 @@ impl ResponseData {
         }
     }
 
+    #[cfg(feature = "djc_tokio_imap_verif")]
+    pub fn verif_raw(&self) -> &Bytes {
+        &self.raw
+    }
+
     #[allow(clippy::needless_lifetimes)]
     pub fn parsed<'a>(&'a self) -> &'a Response<'a> {
         &self.response
